@@ -31,6 +31,10 @@ def mk(tree, method, target, headers=(), body=b'', version='HTTP/1.1', entry='pr
     return Case(line=line, entry=entry, method=method, target=target, headers=list(headers), raw=raw, tree=tree, ws=ws,
                 flush=flush, app=app, alloc=alloc, kind=kind, note=note)
 
+import threading as _threading
+_ROOT_GUARD = _threading.Lock()
+_ROOT_LOCKS = {}
+
 def run_batches(batches, with_model=False, env=None):
     """batches: list of (tree, [Case]); one harness process per batch (the tree/env are process state).
     returns list of (Case, parsed implementation result, canonical impl line, canonical model line|None, manifest_ok)"""
@@ -39,7 +43,11 @@ def run_batches(batches, with_model=False, env=None):
     def work(i):
         tree, cases = batches[i]
         lines = [tree.line(), S.env_line(env), 'manifest'] + [c.line for c in cases] + ['manifest']
-        impl, baseline = S.run_stateful([C.HARNESS_BIN, 'serve'], lines)
+        # a harness process builds the directory of its tree and removes it when it ends: two processes on the same tree object
+        # (the same scratch root) never run at the same time
+        with _ROOT_GUARD: lock = _ROOT_LOCKS.setdefault(tree.root, threading.Lock())
+        with lock:
+            impl, baseline = S.run_stateful([C.HARNESS_BIN, 'serve'], lines)
         model = None
         if with_model:
             # second phase: the model gets, per case, the opaque error text of the real answer
